@@ -10,10 +10,16 @@ Open Scope Q_scope.
 
 Definition uniform (a b r : Q) : Q := a + (b - a) * r.
 
-(** decorrelated_jitter: prev_sleep or base_s (None and 0.0 are falsy) *)
+(** a float product whose exact value is at or above this rounds to +inf (2^1024 - 2^970: halfway between the largest
+    float and 2^1024, ties to even) *)
+Definition float_top : Q := inject_Z (2 ^ 1024 - 2 ^ 970).
+
+(** decorrelated_jitter: prev_sleep or base_s (None and 0.0 are falsy).  When prev * 3.0 overflows to +inf,
+    random.uniform(base_s, inf) is +inf, or NaN for the draw 0.0 (inf * 0.0); min(max_s, x) answers max_s for both
+    (min keeps its first argument unless a later one compares smaller). *)
 Definition decorrelated (base max : Q) (prev : option Q) (r : Q) : Q :=
   let p := match prev with Some p => if Qeq_bool p 0 then base else p | None => base end in
-  Qmin max (uniform base (p * 3) r).
+  if Qle_bool float_top (p * 3) then max else Qmin max (uniform base (p * 3) r).
 
 (** cap = min(max_s, base_s * g ** attempt): the repaired code computes the product without raising
     (exact product, or +inf when it exceeds the float range, which min() then replaces by max_s) *)
